@@ -18,6 +18,7 @@ from .common import dtype_hazard_obligations, struct_ob, formula_ob, guard, last
 from . import mcmc
 from ..report import AnalysisError
 from ..term import Resolver, pmatch
+from .hmcmass import momentum_obligations
 
 HMC = "inference/mcmc/hmc/__init__.py"
 MASS = "inference/mcmc/hmc/mass.py"
@@ -192,76 +193,7 @@ def _splitting(prog, ci, c, fn, unroll):
 
 def _mass(prog):
     out = []
-    pm = prog.cls("ParticleMass")
-    for ci in prog.subclasses("ParticleMass"):
-        c, gv = prog.find_method(ci, "get_velocity")
-        c2, sm = prog.find_method(ci, "sample_momentum")
-        if gv is None or sm is None:
-            raise AnalysisError(f"anchor vanished: {ci.name}.get_velocity / sample_momentum")
-        ret = last_return(gv)
-        rname = gv.args.args[1].arg
-        v = ret.value
-        elementwise = isinstance(v, ast.BinOp) and isinstance(v.op, ast.Mult) and \
-            {U(v.left), U(v.right)} == {rname, "self.inv_mass"}
-        matrix = isinstance(v, ast.BinOp) and isinstance(v.op, ast.MatMult) and U(v.left) == "self.inv_mass" \
-            and U(v.right) == rname
-        out.append(struct_ob("mass-law", qual(c, gv) + f"[{ci.name}]", elementwise or matrix,
-                             f"velocity must be inv_mass * r (diagonal) or inv_mass @ r (full); is `{U(v)}`",
-                             MASS, gv.lineno, slots={"form": "elementwise" if elementwise else "matrix" if matrix else "?"}))
-        # momentum law: variance of the draw is the inverse of inv_mass
-        sret = last_return(sm)
-        draws = [n for n in ast.walk(sret.value) if isinstance(n, ast.Call) and isinstance(n.func, ast.Attribute) and n.func.attr == "normal"]
-        ok, why = False, f"`{U(sret.value)}`"
-        if len(draws) == 1:
-            if elementwise:
-                scale = get_kw(draws[0], "scale")
-                if scale is not None and sret.value is draws[0] and get_kw(draws[0], "loc") is None:
-                    ex = Expander(prog, c2.module, ci)
-                    ex.opaque_self_attrs = set()
-                    try:
-                        sc = ex.eval(scale, {})
-                        inv = ex.self_attr("inv_mass", {})
-                        ok = (sc * sc * inv).eq(R.const(1))
-                        why = f"scale = {sc}, inv_mass = {inv}: scale^2 * inv_mass = {sc * sc * inv}"
-                    except Unsupported as e:
-                        why = str(e)
-            elif matrix:
-                # L @ normal(size=n) with L = solve_triangular(cholesky(inv_mass), eye(n), lower=True).T
-                # then L L^T = (C^-1)^T C^-1 = (C C^T)^-1 = inv_mass^-1
-                v2 = sret.value
-                okp = isinstance(v2, ast.BinOp) and isinstance(v2.op, ast.MatMult) and U(v2.left) == "self.L" \
-                    and v2.right is draws[0] and get_kw(draws[0], "scale") is None and get_kw(draws[0], "loc") is None
-                init = ci.methods.get("__init__")
-                src = {U(s.targets[0]): s.value for s in ast.walk(init) if isinstance(s, ast.Assign)}
-                L = src.get("self.L")
-                okL = False
-                if L is not None and isinstance(L, ast.Attribute) and L.attr == "T" and isinstance(L.value, ast.Call) \
-                        and U(L.value.func) == "solve_triangular":
-                    call = L.value
-                    a0 = call.args[0]
-                    a0v = src.get(U(a0)) if isinstance(a0, ast.Name) else a0
-                    lower = get_kw(call, "lower")
-                    cq = c2.module.imports.get("cholesky", "")
-                    chol_lower = cq.startswith("numpy.linalg") or (
-                        isinstance(a0v, ast.Call) and any(k.arg == "lower" and U(k.value) == "True" for k in a0v.keywords)
-                        and cq.startswith("scipy.linalg"))
-                    if isinstance(a0v, ast.Call) and not chol_lower:
-                        why_chol = (f"; `cholesky` resolves to {cq or 'an unknown callee'}, which does not return the lower factor "
-                                    f"that solve_triangular(..., lower=True) reads")
-                    else:
-                        why_chol = ""
-                    okL = (a0v is not None and chol_lower
-                           and U(a0v).split("(")[0] == "cholesky"
-                           and U(a0v.args[0]) in ("inv_mass", "self.inv_mass")
-                           and U(call.args[1]).startswith("eye(")
-                           and lower is not None and U(lower) == "True"
-                           and U(src.get("self.inv_mass")) == "inv_mass")
-                ok = okp and okL
-                why = f"draw `{U(sret.value)}`; L = `{U(L) if L is not None else None}`" + (
-                    why_chol if "why_chol" in dir() else "")
-        out.append(struct_ob("momentum-law", qual(c2, sm) + f"[{ci.name}]", ok,
-                             "momenta must be drawn with covariance inverse to inv_mass (the kinetic energy's metric): " + why,
-                             MASS, sm.lineno))
+    out.extend(momentum_obligations(prog, "momentum-law", "mass-law"))
     return out
 
 
